@@ -351,15 +351,6 @@ func (x *Exec) Enabled() []mc.Event {
 				out = append(out, ev("payplan", o.String(), int(o), 1))
 			}
 		}
-		for _, m := range f.Faults {
-			base := m
-			if i := strings.Index(m, "*"); i > 0 {
-				base = m[:i]
-			}
-			if len(x.W.Faults[IDA+"/"+base]) == 0 {
-				out = append(out, ev("fault", m, 0, 1))
-			}
-		}
 		if f.Restart {
 			out = append(out, ev("restart", "A", 0, 1))
 		}
@@ -376,6 +367,16 @@ func (x *Exec) Enabled() []mc.Event {
 					out = append(out, ev("replay", fmt.Sprintf("%d", m.Type), i, 1))
 				}
 			}
+		}
+	}
+	// service faults can also be armed while the node is down (they hit the recovery)
+	for _, m := range f.Faults {
+		base := m
+		if i := strings.Index(m, "*"); i > 0 {
+			base = m[:i]
+		}
+		if len(x.W.Faults[IDA+"/"+base]) == 0 {
+			out = append(out, ev("fault", m, 0, 1))
 		}
 	}
 	if f.RestartB {
